@@ -12,6 +12,8 @@
           `digitCount_sufficient_counterexample` shows the code's count does NOT always (defect 1),
           `decomposeRNS_noP_ignores_index`/`noP_gadget_identity_counterexample` show that for keys
           without `P` and `BaseTwoDecomposition = 0` the code's digits violate (G) (defect 2);
+        (defect 3, code only: a key generated at `LevelP = -1` while the parameters have a `P` makes
+          `GadgetProduct` panic in `PiOverflowMargin(-1)` — exhibited by the probe `ks_completes`);
     (R) rounding  `E − ρ₀ − ρ₁·s = P·ν`  (ν = the rounded noise; the ρ are the centred remainders
           `ModUpPtoQ` of the `P` parts) — arithmetic of C02 (`modDown_err`), kept as a hypothesis here.
 
